@@ -285,7 +285,13 @@ impl DirEntry {
         for _ in name_utf16.len()..32 {
             writer.write_le_u16(0)?;
         }
-        writer.write_le_u16((name_utf16.len() as u16 + 1) * 2)?;
+        if self.obj_type == ObjType::Unallocated {
+            // MS-CFB section 2.6.3: an unallocated entry is all zeros (apart
+            // from the sibling and child IDs), including its name length.
+            writer.write_le_u16(0)?;
+        } else {
+            writer.write_le_u16((name_utf16.len() as u16 + 1) * 2)?;
+        }
         writer.write_all(&[self.obj_type.as_byte()])?;
         writer.write_all(&[self.color.as_byte()])?;
         writer.write_le_u32(self.left_sibling)?;
